@@ -34,8 +34,18 @@
     Not modelled: ORDER BY / OFFSET / aggregates / sequences in the remembered query, retention policies,
     batches above 32768 rows, a SHOW racing with a flush (SHOW waits for in-flight flushes first). *)
 From Coq Require Import NArith List Bool.
+From Snel Require Import Gen.Params.
 Import ListNotations.
 Open Scope N_scope.
+
+(** Read from the Rust text on every run (tools/params/p50_materialize.py -> Gen/Params.v):
+    [mat_sink_mark_last] (sink.rs: the mark is assigned from the last frame, not advanced),
+    [mat_stale_cmp], [mat_stale_slack] (index_selector.rs file_definitely_stale: mtime < cutoff - 1),
+    [mat_zone_drop] (materialization_pruner.rs / segment_fully_materialized: timestamp_max < high_water),
+    [mat_wm_strict] (watermark.rs: (ts, id) > mark), [mat_show_applies_limit] (orchestrator.rs passes
+    None, None to the SHOW response writer), [mat_stream_batch_rows] (scan.rs STREAMING_BATCH_SIZE: one batch
+    per flow below that many rows; the translator also checks that a frame's mark is built from the maxima of
+    the columns named "timestamp" and "event_id"). *)
 
 (** ** Events, queries *)
 
@@ -96,9 +106,13 @@ Definition mark_zero (m : mark) : bool := (fst m =? 0) && (snd m =? 0).
 Definition max_of (f : event -> N) (l : list event) : N := fold_right (fun e m => N.max (f e) m) 0 l.
 (** encoder.rs: max over the "timestamp" column and, independently, max over the "event_id" column *)
 Definition frame_mark (f : list event) : mark := (max_of e_ts f, max_of e_id f).
-(** sink.rs: the mark is the one of the last frame *)
+Definition mark_max (a b : mark) : mark := if mlt a b then b else a.
+(** sink.rs: the mark is the one of the last frame ([mat_sink_mark_last], the code as it is) — the other
+    branch is HighWaterMark::advance over every frame *)
 Definition frames_mark (fs : list (list event)) : mark :=
-  match fs with [] => (0, 0) | _ => frame_mark (last fs []) end.
+  if mat_sink_mark_last
+  then match fs with [] => (0, 0) | _ => frame_mark (last fs []) end
+  else fold_left (fun m f => mark_max m (frame_mark f)) fs (0, 0).
 Definition ekey (e : event) : mark := (e_ts e, e_id e).
 
 (** ** Layout of the stored events at a quiescent moment *)
@@ -115,9 +129,9 @@ Definition zone_tsmax (z : list event) : N := max_of e_ts z.
 
 (** [guard = Some h]: the query carries the materialisation metadata with high-water timestamp [h] *)
 Definition zone_kept (g : option N) (z : list event) : bool :=
-  match g with None => true | Some h => negb (zone_tsmax z <? h) end.
+  match g with None => true | Some h => negb (mat_zone_drop (zone_tsmax z) h) end.
 Definition seg_stale (g : option N) (s : segment) : bool :=
-  match g with None => false | Some h => g_mtime s <? h - 1 end.
+  match g with None => false | Some h => mat_stale_cmp (g_mtime s) (h - mat_stale_slack) end.
 Definition seg_rows (g : option N) (q : query) (s : segment) : list event :=
   if seg_stale g s then []
   else flat_map (fun z => if zone_kept g z then filter (matches_at true q) z else []) (g_zones s).
@@ -189,7 +203,8 @@ Definition remember_frames (q : query) (l : layout) (ch : choice) : option (list
 
 Definition wm_enabled (q : query) : bool :=
   match q_tf q with TCore => true | TPayload => q_tf_returned q end.
-Definition wm_pass (q : query) (m : mark) (e : event) : bool := mlt m (tfval q e, e_id e).
+Definition wm_pass (q : query) (m : mark) (e : event) : bool :=
+  if mat_wm_strict then mlt m (tfval q e, e_id e) else mle m (tfval q e, e_id e).
 
 (** spec.rs delta_command / should_update_since *)
 Definition delta_query (q : query) (m : mark) : query :=
@@ -249,9 +264,15 @@ Fixpoint dedup_seen (seen : list N) (l : list event) : list event :=
   | e :: r => if memN (e_id e) seen then dedup_seen seen r else e :: dedup_seen (e_id e :: seen) r
   end.
 
+Definition apply_limit (q : query) (l : list event) : list event :=
+  match q_limit q with
+  | Some n => if mat_show_applies_limit then firstn (N.to_nat n) l else l
+  | None => l
+  end.
 Definition show_output (q : query) (old new : list (list event)) : list event :=
-  if wm_enabled q then concat old ++ concat new
-  else concat old ++ dedup_seen (map e_id (concat old)) (concat new).
+  apply_limit q
+    (if wm_enabled q then concat old ++ concat new
+     else concat old ++ dedup_seen (map e_id (concat old)) (concat new)).
 
 (** ** The catalog and the step function *)
 
@@ -346,7 +367,8 @@ Definition dup_content (l : layout) : bool :=
 
 (** a segment whose .zones file is more than a second older than an event it holds
     (event stamped ahead of the file-system clock) *)
-Definition seg_time_bad (g : segment) : bool := existsb (fun e => g_mtime g + 1 <? e_ts e) (seg_events g).
+Definition seg_time_bad (g : segment) : bool :=
+  existsb (fun e => g_mtime g + mat_stale_slack <? e_ts e) (seg_events g).
 Definition mtime_bad (l : layout) : bool :=
   existsb (fun s => existsb seg_time_bad (s_segs s)) l.
 
